@@ -214,7 +214,9 @@ def one_sequence(ctx, res, community, n):
     if bad:
         res.violate("trap-seq", case, "matching notifications delivered once each", {"deliveries": got[:3], "raised": raised[:3]}, bad, {"kind": "trap", "what": "not-delivered" if "not delivered" in bad else "wrong-delivery"})
     req = {"op": "trap.run", "community": community.hex(), "dgrams": [[a, p, d] for (a, p, _), d in zip(seq, descs)]}
-    return case, got, req, kinds
+    # … and the model handed nothing but the datagrams (`Snmp.Trap.receiveWire`: x690 mirror, glue, checks)
+    wire = {"op": "trap.wire", "community": community.hex(), "dgrams": [[a, p, d.hex()] for a, p, d in seq]}
+    return case, got, (req, wire), kinds
 
 
 def loopback(ctx, res):
@@ -269,14 +271,16 @@ def run(ctx):
         community = ctx.rng.choice([b"public", b"tr4ps", b"a"])
         case, got, req, kinds = one_sequence(ctx, res, community, ctx.rng.randint(1, 8))
         cases.append((case, got, kinds))
-        reqs.append(req)
+        reqs.extend(req)
     loopback(ctx, res)
     if ctx.driver_ok:
-        for (case, got, kinds), ans in zip(cases, run_driver(reqs)):
+        answers = run_driver(reqs)
+        for k, (case, got, kinds) in enumerate(cases):
             res.case("trap-seq", case, nontrivial="valid" in kinds and len(set(kinds)) > 1)
-            model = ans.get("ok", {}).get("deliveries") if "ok" in ans else ans
-            if model != got:
-                res.disagree("trap-seq", case, got[:4], model[:4] if isinstance(model, list) else model)
+            for suite, ans in (("trap-seq", answers[2 * k]), ("trap-wire", answers[2 * k + 1])):
+                model = ans.get("ok", {}).get("deliveries") if "ok" in ans else ans
+                if model != got:
+                    res.disagree(suite, case, got[:4], model[:4] if isinstance(model, list) else model)
     else:
         for case, _, kinds in cases:
             res.case("trap-seq", case)
